@@ -272,6 +272,22 @@ def build_jobs(athlib, ref, quick, rng):
         jobs += [t[0] for t in sel]
     else:
         jobs += [t[0] for t in tyr]
+    # history clause: the central chunk of a race row (number form) again, after one earlier call for the same row with a one-decimal
+    # or whole-second text - hand-timed by Tyrving's convention, so a calculator object or flag kept between calls would show
+    hist = [t for t in tyr if t[2] and t[0][2] == 'grid' and t[1] == 'race' and ty._tyrvingTables[t[0][1][0]][t[0][1][2]][1][0] <= 400]
+    rng.shuffle(hist)
+    seen_ev = set()
+    for t in hist:
+        (sysname, (g, age, ev), form, a, b) = t[0]
+        if quick and (len(seen_ev) >= 4 or (g, ev) in seen_ev):
+            continue
+        if not quick and (g, ev, age) in seen_ev:
+            continue
+        seen_ev.add((g, ev) if quick else (g, ev, age))
+        base = (a + b) // 200
+        jobs.append(t[0] + ('%d.%d' % (base, 3),))
+        if not quick:
+            jobs.append(t[0] + ('%d' % base,))
     qk = sys.modules['athlib.qkids_score']
     codes = sys.modules['athlib.codes']
     for ct, d in qk._qkidsTables.items():
@@ -326,11 +342,12 @@ def call_and_oracle(system, params, form, ref):
 
 
 def worker(job):
-    system, params, form, kmin, kmax = job
+    system, params, form, kmin, kmax = job[:5]
+    prime = job[5] if len(job) > 5 else None          # history clause: the text of one earlier call for the same row
     t0 = time.time()
     res = JobResult()
     ref = _REF
-    label = '%s%r form=%s' % (system, params, form)
+    label = '%s%r form=%s' % (system, params, form) + (' after a call with %r' % (prime,) if prime is not None else '')
     if system.startswith('sportshall'):
         return sportshall_job(res, system, params[0], kmin, kmax, label, ref)
     callf, call_src, term, want_src = call_and_oracle(system, params, form, ref)
@@ -345,6 +362,15 @@ def worker(job):
     R = hc.Runner(res, plain(), call_src.split('(')[0], scripts, max_paths=64, deadline=time.time() + 3000, float_mode='F', int_bv=True, check_feasibility=False)
     R.inline = False
     R.fp_timeout_ms = 900000
+    if prime is not None:
+        def prime_body(R_):
+            try:
+                callf(prime)
+            except Exception:
+                pass
+            return {'inputs': {}}
+        R.prime_body = prime_body
+        R.prime_script = 'import athlib\ntry:\n    %s\nexcept Exception:\n    pass\n' % call_src.replace('perf', repr(prime))
     try:
         R.explore(body_fp(callf, form, kmin, kmax, term), label)
     except E.Budget as e:
@@ -582,7 +608,7 @@ def run(chk, only=None):
     rng = random.Random(chk.seed)
     jobs = build_jobs(athlib, _REF, quick, rng)
     if only:
-        jobs = [j for j in jobs if j[0].startswith(only)]
+        jobs = [j for j in jobs if j[0].startswith(only) or (only == 'history' and len(j) > 5)]
     chk.functions = ['athlib.tyrving_score.tyrving_score / TyrvingCalculator.race_points / jump_points / stav_points', 'athlib.qkids_score.qkids_score',
                      'athlib.sportshall_score.sportshall_score / score_high_event / score_low_event / load_data', 'athlib.bulgarian_score.score', 'athlib.utils.parse_hms']
     chk.stubs = ['IEEE-754 double, round-to-nearest-even, bit-precise (QF_BVFP): + - * / comparisons, int()/floor as fp.to_sbv; decided by cvc5 1.0.3 (z3 5.1 if cvc5 answers unknown)',
